@@ -57,6 +57,11 @@ theorem wordCount_two_pow (p : Nat) : 2 ^ p ≤ 6 * wordCount (2 ^ p) := by
     have := two_pow_mod_192 p h
     omega
 
+/-- `AddAll` compares `Sizeof()` (word counts), the model compares precisions: the same test,
+    because distinct precisions ≥ 2 have distinct word counts (precisions 0, 1, 2 share one word) -/
+theorem wordCount_injective : ∀ p, p < 31 → ∀ q, q < 31 → 2 ≤ p → 2 ≤ q →
+    wordCount (2 ^ p) = wordCount (2 ^ q) → p = q := by decide
+
 /-! ### the decision logic, for any instantiation of the formulas -/
 
 /-- which branch `Cardinality` takes, as a function of the raw estimate and `V` (fixed code) -/
